@@ -425,6 +425,25 @@ func c02Enumerated() []c02Case {
 			out = append(out, c02Case{s, extra})
 		}
 	}
+	// maps in which two keys are different spellings of the same key, in every Go map type a decoder or a caller can
+	// hand over: whatever is accepted has as many entries as the size bounds demand (two here), so these are refused
+	str := &gen.Shape{Kind: gen.KString}
+	for _, keys := range []*gen.Shape{{Kind: gen.KInt}, {Kind: gen.KInt, Units: "bytes"}, {Kind: gen.KIntEnum, IntVals: []int64{1, 7, 1024}}} {
+		m := &gen.Shape{Kind: gen.KMap, Keys: keys, Vals: str, Min: p64(2), Max: p64(2)}
+		pairs := [][2]string{{"1", "01"}, {"7", "+7"}, {"7", " 7"}, {"1024", "1024 "}}
+		if keys.Units != "" {
+			pairs = append(pairs, [2]string{"1kB", "1024B"}, [2]string{"1 kB", "1kB"})
+		}
+		for _, p := range pairs {
+			out = append(out,
+				c02Case{m, map[string]any{p[0]: "a", p[1]: "b"}},
+				c02Case{m, map[string]string{p[0]: "a", p[1]: "b"}},
+				c02Case{m, map[any]any{p[0]: "a", p[1]: "b"}},
+				c02Case{m, map[gen.NamedStr]any{gen.NamedStr(p[0]): "a", gen.NamedStr(p[1]): "b"}})
+		}
+		out = append(out, c02Case{m, map[any]any{"7": "a", int64(7): "b"}}, c02Case{m, map[any]any{int32(7): "a", int64(7): "b"}},
+			c02Case{m, map[string]any{"1": "a", "7": "b"}}) // (the last one is a plain valid map)
+	}
 	return out
 }
 
@@ -489,6 +508,16 @@ func runC02(c *wk.Ctx) {
 	nSampled := c.N(15000, 3000000)
 	total := int64(len(enum)) + nSampled
 	built := map[*gen.Shape]schema.Type{}
+	// unit strings are accepted through lazily built tables of the units definition: the very first uses, by several
+	// goroutines at once and mixed with formatting, must accept and reject exactly what a definition used by one
+	// goroutine does
+	perShard := int(c.N(150, 10000))
+	for k := int64(0); k < 16; k++ {
+		if c.Mine(k) {
+			c.Begin(k, "first use of fresh unit definitions by 8 goroutines (IntSchema.Unserialize)")
+			unitsFirstUse(c, "C02", int(k)*perShard, int(k+1)*perShard, true)
+		}
+	}
 	c.Cases(total, func(idx int64, r *wk.Rand) {
 		env := &gen.Env{}
 		if idx < int64(len(enum)) {
